@@ -7,29 +7,7 @@ fn p(s: &'static str) -> &'static Path {
     Path::new(s)
 }
 
-fn fresh() -> Fs {
-    Fs::new(FsConfig::default(), 7)
-}
-
 const T0: Duration = Duration::ZERO;
-
-// @verif id=PROBE tier=quick role=probe timeout=600
-#[kani::proof]
-#[kani::unwind(10)]
-fn probe_write_read() {
-    let mut fs = empty(FsConfig::default());
-    let f = p("/f");
-    fs.create_file(f, T0);
-    let d: [u8; 2] = kani::any();
-    fs.write_file(f, 0, &d, T0);
-    assert!(fs.file_exists(f));
-    assert!(fs.file_len(f) == 2);
-    let mut buf = [0u8; 2];
-    let n = fs.read_file(f, &mut buf, 0);
-    assert!(n == 2 && buf[0] == d[0] && buf[1] == d[1]);
-    kani::cover!(n == 2, "read reached");
-    std::mem::forget(fs);
-}
 
 /// rng whose words are symbolic: "for every seed" (rand 0.9 RngCore)
 struct AnyRng;
@@ -75,70 +53,15 @@ fn empty(cfg: FsConfig) -> Fs {
     }
 }
 
-// @verif id=PROBE tier=quick role=probe timeout=900
-#[kani::proof]
-#[kani::unwind(10)]
-fn probe_truncate_extend() {
-    let mut fs = empty(FsConfig::default());
-    let f = p("/f");
-    fs.create_file(f, T0);
-    let d: [u8; 2] = kani::any();
-    fs.write_file(f, 0, &d, T0);
-    fs.set_file_len(f, 0, T0);
-    fs.set_file_len(f, 2, T0);
-    assert!(fs.file_len(f) == 2);
-    let mut buf = [7u8; 2];
-    let n = fs.read_file(f, &mut buf, 0);
-    assert!(n == 2);
-    assert!(buf[0] == 0 && buf[1] == 0, "bytes cut off by a truncation do not come back when the file is extended");
-    std::mem::forget(fs);
-}
-
-// @verif id=PROBE tier=quick role=probe timeout=900
-#[kani::proof]
-#[kani::unwind(10)]
-fn probe_crash_keeps_synced() {
-    let mut fs = empty(FsConfig::default());
-    let f = p("/f");
-    fs.create_file(f, T0);
-    let d1: [u8; 2] = kani::any();
-    let d2: [u8; 2] = kani::any();
-    fs.write_file(f, 0, &d1, T0);
-    assert!(fs.sync_file(f).is_ok());
-    assert!(fs.sync_dir(p("/"), T0).is_ok());
-    fs.write_file(f, 0, &d2, T0);
-    fs.crash();
-    assert!(fs.file_exists(f));
-    assert!(fs.file_len(f) == 2);
-    let mut buf = [7u8; 2];
-    let n = fs.read_file(f, &mut buf, 0);
-    assert!(n == 2 && buf[0] == d1[0] && buf[1] == d1[1]);
-    kani::cover!(n == 2, "reached");
-    std::mem::forget(fs);
-}
-
-// @verif id=PROBE tier=quick role=probe timeout=900
-#[kani::proof]
-#[kani::unwind(10)]
-fn probe_crash_drops_unsynced_entry() {
-    let mut fs = empty(FsConfig::default());
-    let f = p("/f");
-    fs.create_file(f, T0);
-    let d1: [u8; 2] = kani::any();
-    fs.write_file(f, 0, &d1, T0);
-    assert!(fs.sync_file(f).is_ok());
-    fs.crash();
-    assert!(!fs.file_exists(f));
-    assert!(fs.persisted_files.len() == 0);
-    kani::cover!(true, "reached");
-    std::mem::forget(fs);
-}
-
 
 fn file_with(content: &[u8]) -> FileData {
     let mut fd = FileData::with_mode(T0, 0o644);
     fd.content = content.to_vec();
     fd
+}
+
+fn pb(s: &'static str) -> PathBuf {
+    PathBuf::from(s)
 }
 
 fn read2(fs: &Fs, path: &Path) -> (usize, [u8; 2]) {
@@ -147,71 +70,93 @@ fn read2(fs: &Fs, path: &Path) -> (usize, [u8; 2]) {
     (n, buf)
 }
 
-// @verif id=PROBE tier=quick role=probe timeout=900
+fn write_op(path: &'static str, offset: u64, data: &[u8]) -> PendingOp {
+    PendingOp::Write { path: pb(path), offset, data: data.to_vec(), time: T0 }
+}
+fn create_op(path: &'static str) -> PendingOp {
+    PendingOp::CreateFile { path: pb(path), time: T0, mode: 0o644 }
+}
+
+// =====================================================================================================
+// C10: without a crash the filesystem behaves like a plain in-memory POSIX file tree. Histories of
+// 3-5 operations of the real `Fs` on concrete paths, symbolic file contents.
+
+// @verif id=C10 tier=quick role=write_read timeout=900
 #[kani::proof]
 #[kani::unwind(10)]
-fn probe_crash_step() {
-    // pre-state written directly: /f durable (inode + entry), /g inode durable but entry not,
-    // pending: an unsynced overwrite of /f and an unsynced create of /h
+fn c10_read_returns_what_was_written() {
     let mut fs = empty(FsConfig::default());
-    let ab: [u8; 2] = kani::any();
-    let xy: [u8; 2] = kani::any();
-    fs.persisted_files.insert(PathBuf::from("/f"), file_with(&ab));
-    fs.persisted_files.insert(PathBuf::from("/g"), file_with(&xy));
-    fs.synced_entries.insert(PathBuf::from("/f"));
-    fs.pending.push(PendingOp::Write { path: PathBuf::from("/f"), offset: 0, data: xy.to_vec(), time: T0 });
-    fs.pending.push(PendingOp::CreateFile { path: PathBuf::from("/h"), time: T0, mode: 0o644 });
-    fs.crash();
-    assert!(fs.pending.is_empty());
-    assert!(fs.file_exists(p("/f")) && !fs.file_exists(p("/g")) && !fs.file_exists(p("/h")));
-    let (n, buf) = read2(&fs, p("/f"));
-    assert!(n == 2 && buf[0] == ab[0] && buf[1] == ab[1]);
-    kani::cover!(n == 2, "reached");
+    let f = p("/f");
+    fs.create_file(f, T0);
+    let d: [u8; 2] = kani::any();
+    fs.write_file(f, 0, &d, T0);
+    assert!(fs.file_exists(f) && !fs.dir_exists(f) && !fs.file_exists(p("/g")));
+    assert!(fs.file_len(f) == 2);
+    let (n, buf) = read2(&fs, f);
+    assert!(n == 2 && buf[0] == d[0] && buf[1] == d[1]);
+    kani::cover!(n == 2, "read reached");
     std::mem::forget(fs);
 }
 
-// @verif id=PROBE tier=quick role=probe timeout=900
+// F-C10-1 (fixed): bytes cut off by a truncation must not come back when the file is extended.
+// @verif id=C10 tier=quick role=truncate_extend timeout=900
 #[kani::proof]
 #[kani::unwind(10)]
-fn probe_sync_file_step() {
+fn c10_truncate_then_extend_reads_zeros() {
+    let mut fs = empty(FsConfig::default());
+    let f = p("/f");
+    fs.create_file(f, T0);
+    let d: [u8; 2] = kani::any();
+    fs.write_file(f, 0, &d, T0);
+    fs.set_file_len(f, 0, T0);
+    fs.set_file_len(f, 2, T0);
+    assert!(fs.file_len(f) == 2);
+    let (n, buf) = read2(&fs, f);
+    assert!(n == 2);
+    assert!(buf[0] == 0 && buf[1] == 0, "bytes cut off by a truncation do not come back when the file is extended");
+    kani::cover!(d[0] != 0, "non-zero data was written before the truncation");
+    std::mem::forget(fs);
+}
+
+// a partial truncation keeps the prefix and only the prefix; the same with the first write already
+// synced (persisted) - sync never changes anything observable
+fn partial_truncate(synced: bool) {
     let mut fs = empty(FsConfig::default());
     let d: [u8; 2] = kani::any();
-    fs.pending.push(PendingOp::CreateFile { path: PathBuf::from("/f"), time: T0, mode: 0o644 });
-    fs.pending.push(PendingOp::Write { path: PathBuf::from("/f"), offset: 0, data: d.to_vec(), time: T0 });
-    let r = fs.sync_file(p("/f"));
-    assert!(r.is_ok());
-    assert!(fs.pending.len() == 1);
-    let fd = fs.persisted_files.get(p("/f"));
-    assert!(fd.is_some());
-    let c = &fd.unwrap().content;
-    assert!(c.len() == 2 && c[0] == d[0] && c[1] == d[1]);
-    assert!(!fs.synced_entries.contains(p("/f")));
-    kani::cover!(true, "reached");
+    if synced {
+        fs.persisted_files.insert(pb("/f"), file_with(&d));
+        fs.synced_entries.insert(pb("/f"));
+    } else {
+        fs.pending.push(create_op("/f"));
+        fs.pending.push(write_op("/f", 0, &d));
+    }
+    let f = p("/f");
+    fs.set_file_len(f, 1, T0);
+    fs.set_file_len(f, 2, T0);
+    assert!(fs.file_len(f) == 2);
+    let (n, buf) = read2(&fs, f);
+    assert!(n == 2 && buf[0] == d[0], "the kept prefix is unaltered");
+    assert!(buf[1] == 0, "the cut-off byte reads as zero after the extension");
+    kani::cover!(d[1] != 0, "non-zero cut-off byte");
     std::mem::forget(fs);
 }
-
-// @verif id=PROBE tier=quick role=probe timeout=900
+// @verif id=C10 tier=quick role=truncate_extend timeout=900
 #[kani::proof]
 #[kani::unwind(10)]
-fn probe_sync_dir_step() {
-    let mut fs = empty(FsConfig::default());
-    let d: [u8; 2] = kani::any();
-    fs.persisted_files.insert(PathBuf::from("/f"), file_with(&d));
-    fs.pending.push(PendingOp::CreateFile { path: PathBuf::from("/f"), time: T0, mode: 0o644 });
-    let r = fs.sync_dir(p("/"), T0);
-    assert!(r.is_ok());
-    assert!(fs.pending.is_empty());
-    assert!(fs.synced_entries.contains(p("/f")));
-    let c = &fs.persisted_files.get(p("/f")).unwrap().content;
-    assert!(c.len() == 2 && c[0] == d[0] && c[1] == d[1]);
-    kani::cover!(true, "reached");
-    std::mem::forget(fs);
+fn c10_partial_truncate_keeps_the_prefix_only_pending_data() {
+    partial_truncate(false);
+}
+// @verif id=C10 tier=quick role=truncate_extend timeout=900
+#[kani::proof]
+#[kani::unwind(10)]
+fn c10_partial_truncate_keeps_the_prefix_only_synced_data() {
+    partial_truncate(true);
 }
 
-// @verif id=PROBE tier=quick role=probe timeout=900
+// @verif id=C10 tier=unshipped role=rename timeout=3000 mem=24
 #[kani::proof]
 #[kani::unwind(10)]
-fn probe_rename_read() {
+fn c10_rename_moves_the_contents() {
     let mut fs = empty(FsConfig::default());
     let d: [u8; 2] = kani::any();
     fs.create_file(p("/f"), T0);
@@ -221,6 +166,479 @@ fn probe_rename_read() {
     let (n, buf) = read2(&fs, p("/g"));
     assert!(n == 2 && buf[0] == d[0] && buf[1] == d[1]);
     assert!(fs.file_len(p("/g")) == 2);
+    assert!(fs.rename(p("/x"), p("/y")).is_err(), "renaming what does not exist fails");
     kani::cover!(n == 2, "reached");
     std::mem::forget(fs);
+}
+
+fn later_write_wins(synced: bool, fixed_off: Option<u64>) {
+    let mut fs = empty(FsConfig::default());
+    let d: [u8; 2] = kani::any();
+    let c: [u8; 1] = kani::any();
+    if synced {
+        fs.persisted_files.insert(pb("/f"), file_with(&d));
+        fs.synced_entries.insert(pb("/f"));
+    } else {
+        fs.pending.push(create_op("/f"));
+        fs.pending.push(write_op("/f", 0, &d));
+    }
+    let off: u64 = match fixed_off {
+        Some(o) => o,
+        None => kani::any(),
+    };
+    kani::assume(off <= 2);
+    fs.write_file(p("/f"), off, &c, T0);
+    let want_len = if off == 2 { 3 } else { 2 };
+    assert!(fs.file_len(p("/f")) == want_len);
+    let mut buf = [7u8; 3];
+    let n = fs.read_file(p("/f"), &mut buf, 0);
+    assert!(n as u64 == want_len);
+    let want = [if off == 0 { c[0] } else { d[0] }, if off == 1 { c[0] } else { d[1] }, c[0]];
+    assert!(buf[0] == want[0] && buf[1] == want[1] && (off != 2 || buf[2] == want[2]));
+    if synced {
+        // a read at an offset returns the tail; a read past the end returns nothing (with three
+        // pending operations these two extra reads ran out of memory at 8 GB, measured)
+        let mut b1 = [7u8; 1];
+        assert!(fs.read_file(p("/f"), &mut b1, 1) == 1 && b1[0] == want[1]);
+        assert!(fs.read_file(p("/f"), &mut b1, want_len) == 0);
+    }
+    kani::cover!(n as u64 == want_len, "reached");
+    std::mem::forget(fs);
+}
+// three pending operations with a symbolic offset ran out of memory at 8 GB (measured): the offset
+// is concrete per instance for pending data and symbolic over persisted data
+// @verif id=C10 tier=quick role=overlay timeout=900
+#[kani::proof]
+#[kani::unwind(10)]
+fn c10_later_write_wins_over_pending_data_overwrite() {
+    later_write_wins(false, Some(1));
+}
+// @verif id=C10 tier=quick role=overlay timeout=900
+#[kani::proof]
+#[kani::unwind(10)]
+fn c10_later_write_wins_over_pending_data_append() {
+    later_write_wins(false, Some(2));
+}
+// @verif id=C10 tier=unshipped role=overlay timeout=3000 mem=24
+#[kani::proof]
+#[kani::unwind(10)]
+fn c10_later_write_wins_over_pending_data_any_offset() {
+    later_write_wins(false, None);
+}
+// @verif id=C10 tier=quick role=overlay timeout=900
+#[kani::proof]
+#[kani::unwind(10)]
+fn c10_later_write_wins_over_synced_data() {
+    later_write_wins(true, None);
+}
+
+// the cut of a truncation may lie BELOW the offset a later read starts at
+// @verif id=C10 tier=quick role=truncate_extend timeout=900
+#[kani::proof]
+#[kani::unwind(10)]
+fn c10_truncate_then_extend_reads_zeros_beyond_the_cut_at_an_offset() {
+    let mut fs = empty(FsConfig::default());
+    let d: [u8; 2] = kani::any();
+    fs.persisted_files.insert(pb("/f"), file_with(&d));
+    fs.synced_entries.insert(pb("/f"));
+    let f = p("/f");
+    fs.set_file_len(f, 0, T0);
+    fs.set_file_len(f, 2, T0);
+    let mut b1 = [7u8; 1];
+    let n = fs.read_file(f, &mut b1, 1);
+    assert!(n == 1 && b1[0] == 0, "a read that starts beyond the cut sees zeros");
+    kani::cover!(d[1] != 0, "non-zero byte was cut off");
+    std::mem::forget(fs);
+}
+
+// a chain of renames (none of them synced) keeps length and contents under the final name
+// @verif id=C10 tier=quick role=rename_chain timeout=900
+#[kani::proof]
+#[kani::unwind(10)]
+fn c10_rename_chain_keeps_the_contents() {
+    let mut fs = empty(FsConfig::default());
+    let d: [u8; 2] = kani::any();
+    fs.persisted_files.insert(pb("/f"), file_with(&d));
+    fs.synced_entries.insert(pb("/f"));
+    fs.pending.push(PendingOp::Rename { from: pb("/f"), to: pb("/g") });
+    fs.pending.push(PendingOp::Rename { from: pb("/g"), to: pb("/h") });
+    assert!(fs.file_exists(p("/h")) && !fs.file_exists(p("/f")) && !fs.file_exists(p("/g")));
+    assert!(fs.file_len(p("/h")) == 2);
+    let (n, buf) = read2(&fs, p("/h"));
+    assert!(n == 2 && buf[0] == d[0] && buf[1] == d[1]);
+    kani::cover!(n == 2, "reached");
+    std::mem::forget(fs);
+}
+
+// a file that is removed and created again under the same name is a NEW, empty file (the history
+// create, write, unlink, create is written into the pending log directly - exactly what the four
+// calls push - because four calls plus the queries ran out of memory at 8 GB, measured)
+// @verif id=C10 tier=quick role=recreate timeout=900
+#[kani::proof]
+#[kani::unwind(10)]
+fn c10_recreated_file_is_empty() {
+    let mut fs = empty(FsConfig::default());
+    let d: [u8; 2] = kani::any();
+    let f = p("/f");
+    fs.pending.push(create_op("/f"));
+    fs.pending.push(write_op("/f", 0, &d));
+    fs.pending.push(PendingOp::RemoveFile { path: pb("/f") });
+    fs.pending.push(create_op("/f"));
+    assert!(fs.file_exists(f));
+    assert!(fs.file_len(f) == 0, "a re-created file does not inherit the removed file's data");
+    let (n, _buf) = read2(&fs, f);
+    assert!(n == 0);
+    kani::cover!(true, "reached");
+    std::mem::forget(fs);
+}
+
+// @verif id=C10 tier=quick role=unlink timeout=900 mem=12
+#[kani::proof]
+#[kani::unwind(10)]
+fn c10_unlink_removes_and_fails_on_missing_names() {
+    let mut fs = empty(FsConfig::default());
+    let d: [u8; 2] = kani::any();
+    let f = p("/f");
+    fs.pending.push(create_op("/f"));
+    fs.pending.push(write_op("/f", 0, &d));
+    // (a third call - removing it twice - ran out of memory at 8 GB, measured)
+    assert!(fs.unlink(p("/g")).is_err(), "removing what does not exist fails");
+    assert!(fs.unlink(f).is_ok());
+    assert!(!fs.file_exists(f));
+    kani::cover!(true, "reached");
+    std::mem::forget(fs);
+}
+
+// @verif id=C10 tier=quick role=dirs timeout=900
+#[kani::proof]
+#[kani::unwind(10)]
+fn c10_mkdir_needs_its_parent_and_a_free_name() {
+    let mut fs = empty(FsConfig::default());
+    assert!(fs.dir_exists(p("/")) && !fs.dir_exists(p("/d")));
+    assert!(fs.mkdir(p("/d/e"), T0).is_err(), "parent must exist");
+    assert!(fs.mkdir(p("/d"), T0).is_ok());
+    assert!(fs.dir_exists(p("/d")) && !fs.file_exists(p("/d")));
+    assert!(fs.mkdir(p("/d"), T0).is_err(), "already exists");
+    assert!(fs.parent_exists(p("/d/f")) && !fs.parent_exists(p("/x/f")));
+    kani::cover!(true, "reached");
+    std::mem::forget(fs);
+}
+
+// (out of memory at 8 GB after 572 s, measured: thorough tier)
+// @verif id=C10 tier=unshipped role=dirs timeout=3000 mem=24
+#[kani::proof]
+#[kani::unwind(10)]
+fn c10_rmdir_needs_an_empty_directory() {
+    let mut fs = empty(FsConfig::default());
+    fs.pending.push(PendingOp::CreateDir { path: pb("/d"), time: T0, mode: 0o755 });
+    fs.pending.push(create_op("/d/f"));
+    assert!(fs.rmdir(p("/d")).is_err(), "not empty");
+    assert!(fs.rmdir(p("/x")).is_err(), "no such directory");
+    fs.pending.push(PendingOp::RemoveFile { path: pb("/d/f") });
+    assert!(fs.rmdir(p("/d")).is_ok());
+    assert!(!fs.dir_exists(p("/d")) && fs.dir_exists(p("/")));
+    kani::cover!(true, "reached");
+    std::mem::forget(fs);
+}
+
+// sync operations never change anything observable
+fn sync_invisible(which: u8) {
+    let mut fs = empty(FsConfig::default());
+    let d: [u8; 2] = kani::any();
+    fs.pending.push(create_op("/f"));
+    fs.pending.push(write_op("/f", 0, &d));
+    let r = match which {
+        0 => fs.sync_file(p("/f")),
+        1 => fs.sync_file_data(p("/f")),
+        _ => fs.sync_dir(p("/"), T0),
+    };
+    assert!(r.is_ok());
+    assert!(fs.file_exists(p("/f")) && fs.file_len(p("/f")) == 2);
+    let (n, buf) = read2(&fs, p("/f"));
+    assert!(n == 2 && buf[0] == d[0] && buf[1] == d[1]);
+    kani::cover!(n == 2, "reached");
+    std::mem::forget(fs);
+}
+// @verif id=C10 tier=unshipped role=sync_invisible timeout=3000 mem=24
+#[kani::proof]
+#[kani::unwind(10)]
+fn c10_sync_all_changes_nothing_observable() {
+    sync_invisible(0);
+}
+// @verif id=C10 tier=unshipped role=sync_invisible timeout=3000 mem=24
+#[kani::proof]
+#[kani::unwind(10)]
+fn c10_sync_data_changes_nothing_observable() {
+    sync_invisible(1);
+}
+// @verif id=C10 tier=unshipped role=sync_invisible timeout=3000 mem=24
+#[kani::proof]
+#[kani::unwind(10)]
+fn c10_directory_sync_changes_nothing_observable() {
+    sync_invisible(2);
+}
+
+// =====================================================================================================
+// C07: after a crash the filesystem holds exactly what was made durable. Inductive-step style: the
+// pre-state (persisted inodes, durable entries, pending log) is written directly, ONE of crash /
+// sync_file / sync_data / sync_dir runs, and the durable image is compared with the model.
+
+/// pre-state: /f durable (inode + entry) with content ab; /g inode durable but its entry is not
+/// (orphan); plus one pending, unsynced operation `op`.
+fn durable_f_orphan_g(ab: &[u8; 2], xy: &[u8; 2], cfg: FsConfig) -> Fs {
+    let mut fs = empty(cfg);
+    fs.persisted_files.insert(pb("/f"), file_with(ab));
+    fs.persisted_files.insert(pb("/g"), file_with(xy));
+    fs.synced_entries.insert(pb("/f"));
+    fs
+}
+
+fn crash_rolls_back(which: u8) {
+    let ab: [u8; 2] = kani::any();
+    let xy: [u8; 2] = kani::any();
+    let mut fs = durable_f_orphan_g(&ab, &xy, FsConfig::default());
+    match which {
+        0 => {
+            fs.pending.push(write_op("/f", 0, &xy));
+            fs.pending.push(create_op("/h"));
+        }
+        1 => fs.pending.push(PendingOp::Rename { from: pb("/f"), to: pb("/h") }),
+        2 => fs.pending.push(PendingOp::RemoveFile { path: pb("/f") }),
+        3 => fs.pending.push(PendingOp::SetLen { path: pb("/f"), len: 0, time: T0 }),
+        _ => {
+            fs.pending.push(PendingOp::CreateDir { path: pb("/d"), time: T0, mode: 0o755 });
+            fs.pending.push(create_op("/d/f"));
+        }
+    }
+    fs.crash();
+    assert!(fs.pending.is_empty());
+    assert!(fs.file_exists(p("/f")), "a durable file survives");
+    assert!(!fs.file_exists(p("/g")), "an inode whose entry was never made durable is gone");
+    assert!(!fs.file_exists(p("/h")) && !fs.dir_exists(p("/d")) && !fs.file_exists(p("/d/f")),
+            "unsynced creates / renames are rolled back");
+    assert!(fs.dir_exists(p("/")));
+    assert!(fs.file_len(p("/f")) == 2);
+    let (n, buf) = read2(&fs, p("/f"));
+    assert!(n == 2 && buf[0] == ab[0] && buf[1] == ab[1], "contents are those of the last data sync");
+    assert!(fs.persisted_files.len() == 1 && fs.persisted_dirs.len() == 1);
+    std::mem::forget(fs);
+}
+// @verif id=C07 tier=quick role=crash_step timeout=900
+#[kani::proof]
+#[kani::unwind(10)]
+fn c07_crash_rolls_back_unsynced_write_and_create() {
+    crash_rolls_back(0);
+    kani::cover!(true, "reached");
+}
+// @verif id=C07 tier=quick role=crash_step timeout=900
+#[kani::proof]
+#[kani::unwind(10)]
+fn c07_crash_rolls_back_unsynced_rename() {
+    crash_rolls_back(1);
+    kani::cover!(true, "reached");
+}
+// @verif id=C07 tier=quick role=crash_step timeout=900
+#[kani::proof]
+#[kani::unwind(10)]
+fn c07_crash_rolls_back_unsynced_remove() {
+    crash_rolls_back(2);
+    kani::cover!(true, "reached");
+}
+// @verif id=C07 tier=quick role=crash_step timeout=900
+#[kani::proof]
+#[kani::unwind(10)]
+fn c07_crash_rolls_back_unsynced_truncate() {
+    crash_rolls_back(3);
+    kani::cover!(true, "reached");
+}
+// @verif id=C07 tier=quick role=crash_step timeout=900
+#[kani::proof]
+#[kani::unwind(10)]
+fn c07_crash_rolls_back_unsynced_directory_tree() {
+    crash_rolls_back(4);
+    kani::cover!(true, "reached");
+}
+
+// torn writes (block size 1): after the crash the file holds a block-aligned prefix of the pending
+// write laid over the durable contents. With a SYMBOLIC rng word the number of surviving bytes is
+// symbolic and `data[..n].to_vec()` becomes a symbolic-length allocation + copy: no verdict in 900 s
+// at 8 GB (measured) - that instance is in the thorough tier; the quick tier fixes the rng word per
+// instance (one word per outcome: no block, one block, both blocks) and keeps the contents symbolic.
+struct ConstRng(u64);
+impl RngCore for ConstRng {
+    fn next_u32(&mut self) -> u32 {
+        (self.0 >> 32) as u32
+    }
+    fn next_u64(&mut self) -> u64 {
+        self.0
+    }
+    fn fill_bytes(&mut self, dst: &mut [u8]) {
+        for b in dst.iter_mut() {
+            *b = self.0 as u8;
+        }
+    }
+}
+
+fn torn_write(word: Option<u64>) -> u8 {
+    let ab: [u8; 2] = kani::any();
+    let xy: [u8; 2] = kani::any();
+    kani::assume(ab[0] != xy[0] && ab[1] != xy[1]); // so that the outcomes can be told apart
+    let mut cfg = FsConfig::default();
+    cfg.block_size = Some(1);
+    let mut fs = durable_f_orphan_g(&ab, &xy, cfg);
+    if let Some(w) = word {
+        fs.rng = Box::new(ConstRng(w));
+    }
+    fs.pending.push(write_op("/f", 0, &xy));
+    fs.pending.push(write_op("/g", 0, &ab));
+    fs.crash();
+    assert!(fs.pending.is_empty() && fs.file_exists(p("/f")) && !fs.file_exists(p("/g")));
+    assert!(fs.file_len(p("/f")) == 2, "a torn overwrite never changes the length");
+    let (n, buf) = read2(&fs, p("/f"));
+    assert!(n == 2);
+    let k0 = buf[0] == ab[0] && buf[1] == ab[1];
+    let k1 = buf[0] == xy[0] && buf[1] == ab[1];
+    let k2 = buf[0] == xy[0] && buf[1] == xy[1];
+    assert!(k0 || k1 || k2, "durable contents overlaid with 0, 1 or 2 whole blocks of the pending write");
+    std::mem::forget(fs);
+    if k0 { 0 } else if k1 { 1 } else { 2 }
+}
+// @verif id=C07 tier=quick role=torn_write timeout=900
+#[kani::proof]
+#[kani::unwind(10)]
+fn c07_torn_write_rng_word_zero() {
+    let k = torn_write(Some(0));
+    kani::cover!(k == 0, "no block survived");
+}
+// (no verdict after 500 s at 5.7 GB, measured: thorough tier)
+// @verif id=C07 tier=unshipped role=torn_write timeout=3000 mem=24
+#[kani::proof]
+#[kani::unwind(10)]
+fn c07_torn_write_rng_word_middle() {
+    let k = torn_write(Some(u64::MAX / 2));
+    kani::cover!(k == 1, "exactly one block survived");
+}
+// (no verdict after 500 s at 5.7 GB, measured: thorough tier)
+// @verif id=C07 tier=unshipped role=torn_write timeout=3000 mem=24
+#[kani::proof]
+#[kani::unwind(10)]
+fn c07_torn_write_rng_word_max() {
+    let k = torn_write(Some(u64::MAX));
+    kani::cover!(k == 2, "both blocks survived");
+}
+// @verif id=C07 tier=unshipped role=torn_write timeout=3000 mem=24
+#[kani::proof]
+#[kani::unwind(10)]
+fn c07_torn_write_leaves_a_block_aligned_prefix_for_every_rng_word() {
+    let k = torn_write(None);
+    kani::cover!(k == 0, "no block survived");
+    kani::cover!(k == 1, "exactly one block survived");
+    kani::cover!(k == 2, "both blocks survived");
+}
+
+// sync_all / sync_data make the DATA durable, not the directory entry: a crash right afterwards
+// loses the never-synced entry; with the entry durable the synced data is what survives
+fn file_sync_step(data_only: bool) {
+    let mut fs = empty(FsConfig::default());
+    let d: [u8; 2] = kani::any();
+    fs.pending.push(create_op("/f"));
+    fs.pending.push(write_op("/f", 0, &d));
+    let r = if data_only { fs.sync_file_data(p("/f")) } else { fs.sync_file(p("/f")) };
+    assert!(r.is_ok());
+    {
+        let fd = fs.persisted_files.get(p("/f"));
+        assert!(fd.is_some());
+        let c = &fd.unwrap().content;
+        assert!(c.len() == 2 && c[0] == d[0] && c[1] == d[1], "the synced data is durable");
+    }
+    assert!(!fs.synced_entries.contains(p("/f")));
+    fs.crash();
+    assert!(!fs.file_exists(p("/f")), "the entry was never made durable");
+    kani::cover!(true, "reached");
+    std::mem::forget(fs);
+}
+// @verif id=C07 tier=unshipped role=sync_file_step timeout=3000 mem=24
+#[kani::proof]
+#[kani::unwind(10)]
+fn c07_sync_all_makes_data_durable_but_not_the_entry() {
+    file_sync_step(false);
+}
+// @verif id=C07 tier=unshipped role=sync_file_step timeout=3000 mem=24
+#[kani::proof]
+#[kani::unwind(10)]
+fn c07_sync_data_makes_data_durable_but_not_the_entry() {
+    file_sync_step(true);
+}
+
+// @verif id=C07 tier=unshipped role=sync_file_step timeout=3000 mem=24
+#[kani::proof]
+#[kani::unwind(10)]
+fn c07_synced_data_survives_and_later_writes_do_not() {
+    let ab: [u8; 2] = kani::any();
+    let xy: [u8; 2] = kani::any();
+    let z: [u8; 1] = kani::any();
+    let mut fs = durable_f_orphan_g(&ab, &xy, FsConfig::default());
+    fs.pending.push(write_op("/f", 0, &xy));
+    assert!(fs.sync_file(p("/f")).is_ok());
+    fs.pending.push(write_op("/f", 1, &z));
+    fs.crash();
+    assert!(fs.file_exists(p("/f")) && fs.file_len(p("/f")) == 2);
+    let (n, buf) = read2(&fs, p("/f"));
+    assert!(n == 2 && buf[0] == xy[0] && buf[1] == xy[1], "contents at the last data sync");
+    kani::cover!(z[0] != xy[1], "the lost write differed");
+    std::mem::forget(fs);
+}
+
+// syncing the parent directory makes entries durable: creation, removal and rename
+// @verif id=C07 tier=unshipped role=sync_dir_step timeout=3000 mem=24
+#[kani::proof]
+#[kani::unwind(10)]
+fn c07_directory_sync_makes_a_created_entry_durable() {
+    let mut fs = empty(FsConfig::default());
+    let d: [u8; 2] = kani::any();
+    fs.persisted_files.insert(pb("/f"), file_with(&d)); // data already synced
+    fs.pending.push(create_op("/f"));
+    fs.pending.push(create_op("/d/x")); // another directory's entry: not covered by this sync
+    assert!(fs.sync_dir(p("/"), T0).is_ok());
+    assert!(fs.synced_entries.contains(p("/f")) && !fs.synced_entries.contains(p("/d/x")));
+    assert!(fs.pending.len() == 1);
+    fs.crash();
+    assert!(fs.file_exists(p("/f")) && !fs.file_exists(p("/d/x")));
+    let (n, buf) = read2(&fs, p("/f"));
+    assert!(n == 2 && buf[0] == d[0] && buf[1] == d[1]);
+    kani::cover!(true, "reached");
+    std::mem::forget(fs);
+}
+
+fn dir_sync_step(rename: bool) {
+    let ab: [u8; 2] = kani::any();
+    let xy: [u8; 2] = kani::any();
+    let mut fs = durable_f_orphan_g(&ab, &xy, FsConfig::default());
+    if rename {
+        fs.pending.push(PendingOp::Rename { from: pb("/f"), to: pb("/h") });
+    } else {
+        fs.pending.push(PendingOp::RemoveFile { path: pb("/f") });
+    }
+    assert!(fs.sync_dir(p("/"), T0).is_ok());
+    fs.crash();
+    assert!(!fs.file_exists(p("/f")), "durably removed / renamed away");
+    assert!(fs.file_exists(p("/h")) == rename);
+    if rename {
+        let (n, buf) = read2(&fs, p("/h"));
+        assert!(n == 2 && buf[0] == ab[0] && buf[1] == ab[1], "the renamed file keeps its durable contents");
+    }
+    kani::cover!(true, "reached");
+    std::mem::forget(fs);
+}
+// @verif id=C07 tier=unshipped role=sync_dir_step timeout=3000 mem=24
+#[kani::proof]
+#[kani::unwind(10)]
+fn c07_directory_sync_makes_a_rename_durable() {
+    dir_sync_step(true);
+}
+// @verif id=C07 tier=unshipped role=sync_dir_step timeout=3000 mem=24
+#[kani::proof]
+#[kani::unwind(10)]
+fn c07_directory_sync_makes_a_remove_durable() {
+    dir_sync_step(false);
 }
